@@ -201,12 +201,10 @@ pub fn run_rustc_mode(p: &Paths, tag: &str, krate: &Crate, entropy: u64, hygiene
         if level != "error" && level != "warning" {
             continue;
         }
-        // Only diagnostics that educe produced: `compile_error!` carries no error code, whereas
-        // rustc's own follow-up errors on the generated code (unresolved names, ...) do. Different
-        // generated code is caught through the expanded text anyway.
-        if !matches!(j.get("code"), Some(J::Null) | None) {
-            continue;
-        }
+        // educe's own diagnostics (`compile_error!`) carry no error code; rustc's follow-up errors
+        // on the generated code (unresolved names, ...) do. Both are compared: where rustc attaches
+        // an error inside generated code is the only place the *location* of generated tokens shows.
+        let code = j.get("code").and_then(|c| c.get("code")).and_then(|x| x.str()).unwrap_or("").to_string();
         if msg.starts_with("aborting due to") || msg.contains("warning emitted") || msg.contains("warnings emitted") {
             continue;
         }
@@ -217,6 +215,10 @@ pub fn run_rustc_mode(p: &Paths, tag: &str, krate: &Crate, entropy: u64, hygiene
             .or(spans.first());
         let line = primary.and_then(|s| s.get("line_start")).and_then(|x| x.u64()).unwrap_or(0) as usize;
         let col = primary.and_then(|s| s.get("column_start")).and_then(|x| x.u64()).unwrap_or(0) as usize;
+        // where the span ends, relative to its start (lines, column)
+        let line_end = primary.and_then(|s| s.get("line_end")).and_then(|x| x.u64()).unwrap_or(0) as usize;
+        let col_end = primary.and_then(|s| s.get("column_end")).and_then(|x| x.u64()).unwrap_or(0) as usize;
+        let extent = format!("+{}:{}", line_end.saturating_sub(line), col_end);
         let mut children = String::new();
         for c in j.get("children").and_then(|x| x.arr()).unwrap_or(&vec![]) {
             children.push_str(" | ");
@@ -225,15 +227,20 @@ pub fn run_rustc_mode(p: &Paths, tag: &str, krate: &Crate, entropy: u64, hygiene
         match krate.lines.iter().find(|(a, b, _)| line >= *a && line <= *b) {
             Some((a, _, id)) => {
                 let rel = line - a;
-                let d = format!("{level}@+{rel}:{col}: {msg}{children}");
+                let d = if code.is_empty() {
+                    format!("{level}@+{rel}:{col}..{extent}: {msg}{children}")
+                } else {
+                    // rustc's own diagnostic: only its code and WHERE it points. Its wording is
+                    // rustc's business and legitimately follows the environment the worlds vary
+                    // (e.g. the `cargo add` hint appears when CARGO_* variables are set).
+                    format!("{level}[{code}]@+{rel}:{col}..{extent}")
+                };
                 mods.entry(*id).or_insert_with(|| ModObs { expanded: String::new(), diags: vec![] }).diags.push(d);
             },
             None => unattributed.push(format!("{level}@{line}: {msg}")),
         }
     }
-    for m in mods.values_mut() {
-        m.diags.sort();
-    }
+    // (emission order is kept: in which order several problems are reported is output too)
     Ok(Session { mods, control, unattributed, raw: if hygiene { stdout } else { String::new() } })
 }
 
@@ -406,8 +413,8 @@ pub fn run(a: &Args, tier: &str, seed: u64) -> Result<E3Result, String> {
     let mut rng = Rng::new(mix64(seed ^ 0xE3E3_E3E3));
 
     // ---- workload
-    let n_corpus = if thorough { corp.inputs.len() } else { a.u64("e3-corpus", 70) as usize };
-    let n_gen = if thorough { a.u64("e3-gen", 600) } else { a.u64("e3-gen", 50) } as usize;
+    let n_corpus = if thorough { corp.inputs.len() } else { a.u64("e3-corpus", 90) as usize };
+    let n_gen = if thorough { a.u64("e3-gen", 600) } else { a.u64("e3-gen", 150) } as usize;
     let n_entropy = if thorough { a.u64("e3-entropy", 24) } else { a.u64("e3-entropy", 4) };
     let n_orders = if thorough { a.u64("e3-orders", 6) } else { a.u64("e3-orders", 2) } as usize;
     let crate_size = a.u64("e3-crate-size", 120) as usize;
@@ -421,7 +428,7 @@ pub fn run(a: &Args, tier: &str, seed: u64) -> Result<E3Result, String> {
         all.push((all.len(), corp.inputs[i].text.clone()));
     }
     for k in 0..n_gen {
-        let opts = GenOpts { error_pct: 20, into_heavy: rng.chance(1, 2) };
+        let opts = GenOpts { error_pct: 35, into_heavy: rng.chance(1, 2) };
         let t = gen::generate(&mut rng, &format!("E{k}"), &opts);
         all.push((all.len(), t));
     }
